@@ -77,3 +77,24 @@ Proof.
     + rewrite E. now rewrite IH.
 Qed.
 End Proofs.
+
+(* ---- the proviso is necessary ---- *)
+Section Nec.
+Variables (Op Plan Key Resp : Type) (key : Op -> Key) (key_eqb : Key -> Key -> bool) (plan_of : Op -> Plan) (run : Plan -> Op -> Resp).
+Hypothesis key_eqb_ok : forall a b, key_eqb a b = true <-> a = b.
+
+(* the proviso of cache_transparent is necessary: two operations with one key whose plans answer the second one
+   differently are told apart by the two-request history a; b within the TTL *)
+Theorem colliding_keys_change_an_answer : forall ttl t a b,
+  key a = key b -> run (plan_of a) b <> run (plan_of b) b ->
+  run_cached Op Plan Key Resp key key_eqb plan_of run ttl [(a, t); (b, t)] []
+  <> run_plain Op Plan Resp plan_of run [(a, t); (b, t)].
+Proof.
+  intros ttl t a b Hk Hr.
+  assert (Hkk : key_eqb (key a) (key b) = true) by (apply key_eqb_ok; exact Hk).
+  assert (Hexp : (t + ttl <? t) = false) by (apply Nat.ltb_ge; lia).
+  cbn [run_cached run_plain map fst]. unfold plan_cached at 1. cbn [clean filter lookup find store].
+  unfold plan_cached. cbn [clean filter e_expiry]. rewrite Hexp. cbn [negb lookup find e_key]. rewrite Hkk.
+  cbn [e_plan run_cached]. intros E. injection E as E. exact (Hr E).
+Qed.
+End Nec.
